@@ -50,6 +50,26 @@ def run(chk):
     if extra:
         outs = outs + FR.run_many(extra)
         chk.count("runs at ages just after a bin edge turns off", len(extra))
+    # third stage: dynamical ejection that leaves the partly emptied BH bin with only a few objects (1.3 - 3.5): the retained fraction is computed
+    # from the same configuration's full-retention run (the ejection works on the extracted copy of each row, heaviest bin first)
+    few = []
+    for out in outs[: (12 if chk.tier == "quick" else 100)]:
+        cfg = out["cfg"]
+        if "error" in out or not out["converged"] or cfg["cls"] != "EvolvedMF" or cfg.get("natal_kicks"):
+            continue
+        Mb, Nb = out["Mr"][2][0], out["Nr"][2][0]
+        if cfg.get("BH_ret_dyn", 1.0) != 1.0:
+            continue          # only full-retention runs show the BHs as formed
+        js = [j for j in range(len(Nb)) if Nb[j] > 4.5]
+        if not js or Mb.sum() <= 0:
+            continue
+        j = rng.choice(js)
+        x = rng.uniform(1.3, 3.5)
+        keep = float(Mb[:j].sum() + x * Mb[j] / Nb[j])
+        few.append(dict(cfg, BH_ret_dyn=keep / float(Mb.sum())))
+    if few:
+        outs = outs + FR.run_many(few)
+        chk.count("runs whose dynamical ejection leaves the boundary BH bin with 1.3 - 3.5 objects", len(few))
     for out in outs:
         cfg = out["cfg"]
         if "error" in out:
